@@ -14,6 +14,69 @@ def _norm(txt):
     return txt
 
 
+def unit_macro_rows(repo):
+    """src/unit.rs: per storage class, how the unit! macro builds coefficient() / constant() from the table expressions (and the
+    from_f64 helpers); the @coefficient / @constant helper arms; what the public arm forwards."""
+    path = os.path.join(repo, "src", "unit.rs")
+    with open(path, encoding="utf-8") as f:
+        toks = lex(f.read(), path)
+    n = len(toks)
+    rows = []
+    i = 0
+    while i < n:
+        if toks[i][:2] == ("id", "storage_types") and toks[i + 1][:2] == ("punct", "!") and toks[i + 2][:2] == ("punct", "{"):
+            end = O._match(toks, i + 2, "{", "}")
+            body = toks[i + 3:end]
+            if body and body[0][:2] == ("id", "types"):
+                k = 0
+                while body[k][:2] != ("punct", ";"):
+                    k += 1
+                types = "unit!:" + O._txt(body[2:k])
+                j = k + 1
+                depth = 0
+                while j < len(body):
+                    if body[j][:2] == ("id", "fn"):
+                        name = body[j + 1][1]
+                        b = j
+                        while body[b][:2] != ("punct", "{"):
+                            b += 1
+                        be = O._match(body, b, "{", "}")
+                        if name != "is_valid":
+                            rows.append((types, "", "fn " + name, _norm(O._txt(body[b + 1:be]))))
+                        j = be
+                    elif body[j][:2] == ("id", "type") and body[j + 1][:2] == ("id", "T"):
+                        s_ = j
+                        while body[s_][:2] != ("punct", ";"):
+                            s_ += 1
+                        rows.append((types, "", "type T", _norm(O._txt(body[j + 3:s_]))))
+                        j = s_
+                    j += 1
+            i = end
+        i += 1
+    # macro arms
+    for i in range(n - 3):
+        if toks[i][:2] == ("id", "macro_rules") and toks[i + 2][:2] == ("id", "unit"):
+            b = i + 3
+            e = O._match(toks, b, "{", "}")
+            k = b + 1
+            while k < e:
+                if toks[k][:2] == ("punct", "("):
+                    pe = O._match(toks, k, "(", ")")
+                    pat = O._txt(toks[k + 1:pe])
+                    bb = pe + 1
+                    while toks[bb][:2] != ("punct", "{"):
+                        bb += 1
+                    be = O._match(toks, bb, "{", "}")
+                    if pat.startswith("@coefficient") or pat.startswith("@constant"):
+                        rows.append(("unit!:arm", _norm(pat), "=>", _norm(O._txt(toks[bb + 1:be]))))
+                    elif pat.startswith("system:"):
+                        rows.append(("unit!:public arm", _norm(pat), "=>", _norm(O._txt(toks[bb + 1:be]))))
+                    k = be
+                k += 1
+            break
+    return rows
+
+
 def translate(repo):
     path = os.path.join(repo, "src", "lib.rs")
     with open(path, encoding="utf-8") as f:
@@ -88,7 +151,7 @@ def translate(repo):
                         rows.append(("default", "traitConversion<V>", "fn " + name, _norm(O._txt(toks[b + 1:be]))))
                         m = be
                 m += 1
-    return rows
+    return rows + unit_macro_rows(repo)
 
 
 def _s(x):
